@@ -9,7 +9,7 @@
 (* Deliberate deviations of the code from PHP are named: RetUnderflow ('}' with an *)
 (* empty stack keeps scanning PHP), HaltFallback (__halt_compiler not followed by  *)
 (* "( ) ;" falls back to PHP mode), PropertyFallback.                              *)
-EXTENDS Naturals, Sequences, FiniteSets, TLC, Json
+EXTENDS LexTok, Naturals, Sequences, FiniteSets, TLC, Json
 
 CONSTANTS MaxAtoms,   \* longest atom path
           MaxStack,   \* deepest call stack explored
@@ -170,7 +170,8 @@ Php == /\ mode \in FallModes
           \/ (after = 0 /\ Eff("HEREDOC_START:sq", <<T("T_START_HEREDOC")>>, "nowdoc", stack, "none", FALSE, TRUE, 0, FALSE, 0))
           \* leaving php
           \/ \E a \in {"CLOSE_TAG", "CLOSE_TAG:lf", "SEMI_CLOSE_TAG"} :
-               after = 0 /\ Eff(a, <<T("CH:;")>>, "html", stack, "none", FALSE, FALSE, 0, FALSE, 0)
+               after = 0 /\ ~(mode = "halt_semi" /\ a = "SEMI_CLOSE_TAG")       \* there the ";" belongs to the halt rule
+               /\ Eff(a, <<T("CH:;")>>, "html", stack, "none", FALSE, FALSE, 0, FALSE, 0)
           \* a "//" comment ended by the close tag: the comment stops before "?>"
           \/ (after = 0 /\ Eff("COMMENT_THEN_CLOSE_TAG", <<FF("T_COMMENT"), T("CH:;")>>, "html", stack, "none", FALSE, FALSE, 0, FALSE, 0))
           \/ (after = 0 /\ mode # "property" /\ Eff("KW:__halt_compiler", <<T("T_HALT_COMPILER")>>, "halt_open", stack, "none", FALSE, FALSE, 0, FALSE, 0))
@@ -259,6 +260,23 @@ StackDiscipline ==
 \* every atom yields at least one token or a warning: the machine has no silent, zero-width transition,
 \* hence no cycle without progress (design-level statement of "never loops forever")
 Progress == [][(path' # path /\ ~done') => (Len(out') > Len(out) \/ nerr' > nerr)]_vars
+
+\* The atom-level machine agrees with the token-level relation LexTok!After that LexerTrace uses to validate
+\* implementation traces: replaying the tokens an atom owes from (mode, stack) can reach (mode', stack').
+\* (Lexer.tla has no heredoc_end mode: a text token that reaches the closing label stays in the body mode here.)
+Shapes == [closetag : BOOLEAN, hd : {"heredoc", "nowdoc", "heredoc_end"}, next : {"var", "eof", "other"}]
+NormMode(m1, m0) == IF m1 = "heredoc_end" THEN m0 ELSE m1
+RECURSIVE Reach(_, _, _, _)
+Reach(m, st, toks, k) ==          \* set of <<mode, stack>> reachable after tokens k .. Len(toks)
+  IF k > Len(toks) THEN {<<m, st>>}
+  ELSE LET t == toks[k]
+           m0 == IF t.id = "T_END_HEREDOC" THEN "heredoc_end" ELSE m
+           nxt == IF t.ff THEN {<<x, st>> : x \in AfterFF(IF m0 = "main" /\ t.id # "T_COMMENT" THEN "html" ELSE m0, t.id)}
+                  ELSE UNION {After(IF m0 = "main" THEN "html" ELSE m0, st, t.id, sh) : sh \in Shapes}
+       IN UNION {Reach(NormMode(p[1], m), p[2], toks, k + 1) : p \in nxt}
+NewToks == SubSeq(out', Len(out) + 1, Len(out'))
+Consistent == [][(path' # path /\ ~done' /\ path'[Len(path')] \notin {"BADCHAR", "HD_END:indented"})
+                   => <<mode', stack'>> \in Reach(mode, stack, NewToks, 1)]_vars
 
 \* C08: white space and comments never change the mode of php scanning nor the stack
 TriviaTransparent == [][(path' # path /\ ~done' /\ mode = "php" /\
